@@ -32,14 +32,17 @@ package epubdoc
 //@     invariant forall k int :: {enc.EncryptedData[k]} 0 <= k && k < $i ==> !(!isFontObfuscation(enc.EncryptedData[k].EncryptionMethod.Algorithm) && isContentFile(strings.ToLower(enc.EncryptedData[k].CipherData.CipherReference.URI)))
 
 // ---- C18: chapters are presented in spine order, each declared readable item at most once ----
+// (C02) a content document is read at most once however often the spine names it: `reads` counts the readFile calls
 //@ func (*Reader) loadChapters results (err)
-//@   property C18
+//@   property C18, C02
+//@   count reads: readFile(z, h) when true
 //@   ensures spine_order: forall a int, b int :: {r.chapters[a], r.chapters[b]} 0 <= a && a < b && b < len(r.chapters) ==> r.chapters[a].Index < r.chapters[b].Index
 //@   ensures from_spine: forall k int :: {r.chapters[k]} 0 <= k && k < len(r.chapters) ==> 0 <= r.chapters[k].Index && r.chapters[k].Index < len(r.pkg.Spine) && has(r.pkg.Manifest, r.pkg.Spine[r.chapters[k].Index].IDRef) && r.chapters[k].ID == r.pkg.Manifest[r.pkg.Spine[r.chapters[k].Index].IDRef].ID
 //@   ensures count: len(r.chapters) <= len(r.pkg.Spine)
 //@   ensures package_unchanged: r.pkg == old(r.pkg)
 //@   loop 0:
 //@     invariant r.pkg == old(r.pkg) && len(r.chapters) <= $i
+//@     step a_document_already_loaded_is_not_read_again: has(r.pkg.Manifest, spineItem.IDRef) && has(prev(loaded), href) ==> reads == prev(reads)
 //@     invariant forall a int, b int :: {r.chapters[a], r.chapters[b]} 0 <= a && a < b && b < len(r.chapters) ==> r.chapters[a].Index < r.chapters[b].Index
 //@     invariant forall k int :: {r.chapters[k]} 0 <= k && k < len(r.chapters) ==> 0 <= r.chapters[k].Index && r.chapters[k].Index < $i && has(r.pkg.Manifest, r.pkg.Spine[r.chapters[k].Index].IDRef) && r.chapters[k].ID == r.pkg.Manifest[r.pkg.Spine[r.chapters[k].Index].IDRef].ID
 
